@@ -1,0 +1,27 @@
+//go:build verif
+
+package engine
+
+// Verification hook (build tag "verif"): counts VM instructions executed by
+// findMatches and optionally aborts a run that exceeds a step limit.
+// Not synchronised on purpose: the checks that use it are single-goroutine.
+
+type VerifBudgetExceeded struct{}
+
+var (
+	verifSteps int64
+	verifLimit int64
+)
+
+// VerifSetStepLimit resets the counter and sets the limit (0 = unlimited).
+func VerifSetStepLimit(n int64) { verifLimit = n; verifSteps = 0 }
+
+// VerifSteps returns the number of VM instructions executed since the last reset.
+func VerifSteps() int64 { return verifSteps }
+
+func verifTick() {
+	verifSteps++
+	if verifLimit > 0 && verifSteps > verifLimit {
+		panic(VerifBudgetExceeded{})
+	}
+}
